@@ -53,6 +53,10 @@ def cases(tier):
             for sub in itertools.combinations(LOCS, k):
                 for sc in SCOPES:
                     out.append({'part': 'b', 'locs': list(sub), 'scope': sc, 'sort': so})
+    # (e) a file trashed from inside a directory, then the directory itself: both chosen, the directory first (reply order matters)
+    for so in ('date', 'path', 'none'):
+        for rp in ('1,0', '0,1', '0-1'):
+            out.append({'part': 'e', 'reply': rp, 'sort': so})
     # (d) two entries whose parents are prefix-siblings (/a/foobar, /a/foo) and no longer exist: both chosen, in both orders
     for so in ('date', 'path', 'none'):
         for rp in ('0-1', '1,0', '0,1'):
@@ -210,8 +214,34 @@ def run_d(c):
     return {'verdict': 'ok', 'klass': 'prefix-siblings:both-restored', 'nontrivial': nt, 'detail': detail}
 
 
+def run_e(c):
+    W = scen.base_world(cwd='/home/u/w')
+    ents = [('x', '/home/u/w/d/x', '2024-01-01T00:00:00', 'file'), ('d', '/home/u/w/d', '2024-01-02T00:00:00', 'tree')]
+    for nm, loc, d, k in ents:
+        scen.add_trashed(W, TD, nm, loc, d, payload=k, tag=nm)
+    with cell.Sandbox(W.spec()) as sb:
+        before = sb.snapshot()
+        r = sb.run(['trash-restore', '--sort', c['sort']], cwd='/home/u/w', stdin=c['reply'] + '\n')
+        after = sb.snapshot()
+    listing = scen.parse_restore_listing(r.out)
+    first = None
+    toks = c['reply'].replace('-', ',').split(',')
+    for (i, d_, p) in listing:
+        if str(i) == toks[0]:
+            first = p
+    gone = sorted(nm for nm, loc, d, k in ents if scen.entry_state(before, after, TD, nm) == 'purged')
+    detail = {'reply': c['reply'], 'sort': c['sort'], 'exit': r.exit, 'err': r.err[-300:], 'listing': listing, 'left-the-trash': gone, 'restored-first': first}
+    nt = 'nested|%s|%s|%s' % (c['reply'], c['sort'], 'dir-first' if first == '/home/u/w/d' else 'file-first')
+    if first != '/home/u/w/d':
+        return {'verdict': 'dontcare', 'klass': 'nested:file-first(the directory is then in the way, C06)', 'detail': detail}
+    if gone != ['d', 'x'] or r.exit != 0 or not world.same_entry(before, TD + '/files/x', after, '/home/u/w/d/x'):
+        return {'verdict': 'viol', 'sig': 'C13|restored-set-differs-from-chosen-indices|directory-then-the-file-inside-it', 'klass': 'restored-set-differs-from-chosen-indices',
+                'nontrivial': nt, 'detail': detail}
+    return {'verdict': 'ok', 'klass': 'nested:both-restored-in-reply-order', 'nontrivial': nt, 'detail': detail}
+
+
 def run_case(c):
-    return {'a': run_a, 'b': run_b, 'c': run_c, 'd': run_d}[c['part']](c)
+    return {'a': run_a, 'b': run_b, 'c': run_c, 'd': run_d, 'e': run_e}[c['part']](c)
 
 
 def main(tier, seed):
